@@ -523,6 +523,9 @@ def plan(tier, seed):
     nsh = 16
     for i in range(nsh):
         specs.append(dict(name="classes-%d" % i, kind="classes", classes=names[i::nsh], n=1200 if tier == "quick" else 12000))
+    # the same classes once more with the library's debug tracing switched on
+    for i in range(4):
+        specs.append(dict(name="tracing-%d" % i, kind="classes", classes=names[i::4], n=80 if tier == "quick" else 800, tracing=True))
     return specs
 
 
